@@ -883,7 +883,7 @@ def run_all(res, tier, rng, tmpdir, quick):
         bt.run()
     # ---- (5) nesting / precedence stream: every ordered pair of operators, nested left and right, operand triples on which the
     #          two groupings differ (inside the domain)
-    ncl = c02_gen.gen_nest_classes(rng.fork('nest'))
+    ncl = c02_gen.gen_nest_classes(rng.fork('nest'), *((2, 1) if quick else (3, 2)))
     c02_gen.write_module(tmpdir, 'c02_gen_nest', ncl)
     try:
         nmod = c02_gen.load_module(tmpdir, 'c02_gen_nest')
